@@ -22,14 +22,25 @@ def recheck(sid):
     meta = json.load(open(mp))
     patch = os.path.join(d, "patch.diff")
     chk = subprocess.run(["git", "-C", "/repo", "apply", "--check", patch], capture_output=True, text=True)
+    use_patch = False
     if chk.returncode != 0:
+        # context moved by a later hook/fix commit: try with fuzz
+        dry = subprocess.run(["patch", "-p1", "--dry-run", "-F3", "--no-backup-if-mismatch", "-i", patch],
+                             cwd="/repo", capture_output=True, text=True)
+        use_patch = dry.returncode == 0
+    if chk.returncode != 0 and not use_patch:
         meta["applies"] = False
         meta["detected_by"] = "patch no longer applies to the repaired tree: " + chk.stderr.strip()[:160]
         json.dump(meta, open(mp, "w"), indent=1)
         print(f"{sid}: does not apply")
         return
     meta["applies"] = True
-    subprocess.run(["git", "-C", "/repo", "apply", patch], check=True)
+    if use_patch:
+        subprocess.run(["patch", "-p1", "-F3", "--no-backup-if-mismatch", "-i", patch], cwd="/repo", check=True,
+                       capture_output=True)
+        meta["applied_with_fuzz"] = True
+    else:
+        subprocess.run(["git", "-C", "/repo", "apply", patch], check=True)
     try:
         r = subprocess.run([os.path.join(ROOT, "check"), pid, "--tier", "quick"], capture_output=True, text=True, timeout=3600)
     finally:
